@@ -6,6 +6,8 @@ import Pycoin.Proofs.VMStepPick
 import Mathlib.Tactic.IntervalCases
 import Pycoin.Proofs.VMEval
 import Pycoin.Proofs.VMSigEnc
+import Pycoin.Proofs.VMEval2
+import Pycoin.Spec.Secp256k1
 /-!
 C03M — the Lean model of pycoin's script VM (`Pycoin.VM`, tied to the code by `harness/props/c03m.py`) against the
 consensus specification `Pycoin.Spec.Consensus` (Bitcoin Core's interpreter, sibling builder).
@@ -318,5 +320,167 @@ theorem C03M_pubkey_encoding (blob : Bytes) :
 theorem C03M_pubkey_compressed (blob : Bytes) :
     (decide (blob.length ≠ 33) || !(decide (blob.head? = some 2) || decide (blob.head? = some 3))) = !isCompressedPubKey blob :=
   compressedKey_eq blob
+
+
+/-! ## the CHECKSIG family
+
+The signature check proper (`generator.verify` of the sighash closure's digest; Core: `CheckSig`) is the shared
+parameter `chk`.  All the theorems below ask of it is `ChkWF chk`: an empty signature, a signature the lax DER parser
+rejects and a key whose length does not fit its first byte never verify (the early exits of Core's `CheckSig`,
+`C03M_chk_wf_core`).  Where the base signature version hashes a script code with the signatures removed, the agreement
+of pycoin's `_delete_signature` with Core's `FindAndDelete` is the hypothesis `DelAgrees` / `SigDelShared` (property
+C04, `C04_findAndDelete_eq_partial`); witness VMs delete nothing and need no such hypothesis. -/
+
+/-- `der.sigdecode_der_lax` (index based port) = `ecdsa_signature_parse_der_lax` of the specification on **every** byte
+string: same failures, same `(r, s)` — up to libsecp256k1 overwriting an out-of-range signature with `(0, 0)` -/
+theorem C03M_sigenc_lax (sig : Bytes) : laxDerParse sig = (sigdecodeDerLax sig).map normSig := sigdecodeDerLax_spec sig
+
+/-- every signature that passes `IsValidSignatureEncoding` is read by the lax parser (so LOW_S never meets an
+unparseable signature) -/
+theorem C03M_sigenc_valid_parses (sig : Bytes) (hv : isValidSignatureEncoding sig = true) :
+    ∃ r s, sigdecodeDerLax sig.dropLast = some (r, s) := valid_decodes sig hv
+
+/-- `parse_and_check_signature_blob(sig, flags)` = `CheckSignatureEncoding(sig, flags)` for every byte string and flag
+set: it raises exactly when Core rejects (DERSIG/LOW_S/STRICTENC ⇒ strict DER; LOW_S ⇒ low S on the lax-parsed pair;
+STRICTENC ⇒ defined hash type), and otherwise yields a pair exactly when the blob is non-empty and lax-parsable -/
+theorem C03M_sigenc_blob (sig : Bytes) (n : Nat) :
+    (∃ e, parseAndCheckSignatureBlob sig n = .error e ∧ (checkSignatureEncoding sig (Flags.ofBits n)).isSome = true) ∨
+    (∃ p, parseAndCheckSignatureBlob sig n = .ok p ∧ checkSignatureEncoding sig (Flags.ofBits n) = none ∧
+        (p == .parsed) = (!sig.isEmpty && (laxDerParse sig.dropLast).isSome)) := parse_cases sig n
+
+#guard parseAndCheckSignatureBlob [0x30, 0x06, 0x02, 0x01, 0x01, 0x02, 0x01, 0x01, 0x01] 14 = .ok .parsed
+#guard (parseAndCheckSignatureBlob [0x30, 0x06, 0x02, 0x01, 0x01, 0x02, 0x01, 0x01, 0x00] 2).toOption = none
+
+section
+variable (chk : Bytes → Bytes → Bytes → Bool → Bool) (cfg : Config)
+
+/-- Core's `CheckSig` (`Spec/Secp256k1.checkSigWith`: key parse, empty signature, lax DER, ECDSA) has the early exits
+`ChkWF` asks for, whatever the signature hash: the hypothesis of the theorems below is satisfied by the real thing -/
+theorem C03M_chk_wf_core (sighash : Bytes → Bool → Nat → Bytes) :
+    ChkWF (fun sig pk code w => Spec.Secp256k1.checkSigWith (sighash code w) sig pk) := by
+  intro sig pk code w h
+  simp only [Spec.Secp256k1.checkSigWith] at h
+  cases hk : Spec.Secp256k1.parsePubKey pk with
+  | none => rw [hk] at h; cases h
+  | some Q =>
+    rw [hk] at h
+    cases hl : sig.getLast? with
+    | none => rw [hl] at h; cases h
+    | some ht =>
+      rw [hl] at h
+      cases hp : laxDerParse sig.dropLast with
+      | none => rw [hp] at h; cases h
+      | some rs =>
+        refine ⟨(by intro hs; subst hs; cases hl), rfl, ?_⟩
+        cases pk with
+        | nil => cases hk
+        | cons pre rest =>
+          simp only [Spec.Secp256k1.parsePubKey] at hk
+          unfold pubkeyShapeOk
+          split_ifs at hk with h1 h2
+          all_goals simp_all [← UInt8.toNat_inj]
+
+/-- **checksigs_eq**: the two nested `while` loops of `checksigs` (pycoin pops signatures and keys from the end, parses
+a signature once, tries it on keys while more keys than signatures remain) give the verdict of Core's
+`while (fSuccess && nSigsCount > 0)` loop, for **all** signature and key lists with `#sigs ≤ #keys` (no bound of 20
+needed), every flag set; both encodings are checked for every pair either side examines. Induction on the signature
+list, inner induction on the key list. -/
+theorem C03M_checksigs_eq (hwp : hasFlag cfg.flags Gen.VM.VERIFY_WITNESS_PUBKEYTYPE = true → cfg.witness = true)
+    (hchk : ChkWF chk) (code : Bytes) (sigs pubs : List Bytes) (h : sigs.length ≤ pubs.length) :
+    (checksigsLoop (stdEnv chk) cfg (.ok code) sigs pubs).toOption = (specMulti chk cfg code sigs pubs).toOption :=
+  checksigsLoop_spec chk cfg hwp hchk code sigs pubs h
+
+/-- C03.step_eq, OP_CHECKSIG / OP_CHECKSIGVERIFY at handler level, for every Core state: stack depth, both encodings,
+the check, NULLFAIL, the VERIFY suffix -/
+theorem C03M_step_eq_checksig (hwp : hasFlag cfg.flags Gen.VM.VERIFY_WITNESS_PUBKEYTYPE = true → cfg.witness = true)
+    (hchk : ChkWF chk) : ∀ op ∈ [0xac, 0xad],
+    ∃ h, Gen.VM.lookupList[op]? = some (h, false) ∧
+      ∀ (st : Consensus.State) (pc' : Nat), (∀ sigs, (∀ x ∈ sigs, x ∈ st.stack) → DelAgrees cfg st sigs) →
+        Agree pc' (runHandler (stdEnv chk) cfg h (absS st pc')) (specCheckSig chk cfg st op) := by
+  intro op hop
+  simp only [List.mem_cons, List.mem_nil_iff, or_false] at hop
+  rcases hop with rfl | rfl
+  · exact ⟨.sig_CHECKSIG, sig_table.1, fun st pc' hd => h_CHECKSIG chk cfg hwp hchk st pc' hd⟩
+  · exact ⟨.sig_CHECKSIGVERIFY, sig_table.2.1, fun st pc' hd => h_CHECKSIGVERIFY chk cfg hwp hchk st pc' hd⟩
+
+/-- C03.step_eq, OP_CHECKMULTISIG / OP_CHECKMULTISIGVERIFY at handler level, for every Core state and all `m ≤ n ≤ 20`:
+4-byte minimal counts and their ranges, stack depth, NULLDUMMY, the matching loops, NULLFAIL, the VERIFY suffix, and the
+op-count contribution of the key count — Core adds it and tests the limit before looking at the keys, pycoin
+(`vm.op_count += key_count` at the very end) only afterwards, so the comparison is made through `cntCheck`, the test
+`eval_instruction` applies right after the handler -/
+theorem C03M_step_eq_checkmultisig (hwp : hasFlag cfg.flags Gen.VM.VERIFY_WITNESS_PUBKEYTYPE = true → cfg.witness = true)
+    (hchk : ChkWF chk) : ∀ op ∈ [0xae, 0xaf],
+    ∃ h, Gen.VM.lookupList[op]? = some (h, false) ∧
+      ∀ (st : Consensus.State) (pc' : Nat), (∀ sigs, (∀ x ∈ sigs, x ∈ st.stack) → DelAgrees cfg st sigs) →
+        ((runHandler (stdEnv chk) cfg h (absS st pc')).bind cntCheck).toOption =
+          (specCheckMultiSig chk cfg st op).toOption.map (absS · pc') := by
+  intro op hop
+  simp only [List.mem_cons, List.mem_nil_iff, or_false] at hop
+  rcases hop with rfl | rfl
+  · exact ⟨.sig_CHECKMULTISIG, sig_table.2.2.1, fun st pc' hd => do_CHECKMULTISIG_spec chk cfg hwp hchk st pc' hd⟩
+  · exact ⟨.sig_CHECKMULTISIGVERIFY, sig_table.2.2.2, fun st pc' hd => do_CHECKMULTISIGVERIFY_spec chk cfg hwp hchk st pc' hd⟩
+
+/-- C03.step_eq at the level of `VM.eval_instruction`, **all 256 opcode values**: for every Core state `st` and every
+position `pc` inside the script, one `eval_instruction` on the pycoin state representing `st` and one iteration of
+Core's `EvalScript` loop both fail or both succeed with corresponding states.  Hypotheses: MINIMALIF and
+WITNESS_PUBKEYTYPE are only given to witness VMs (`check_solution` strips them otherwise: discharged in
+`C03M_verify_eq`), `ChkWF chk`, and signature deletion agrees for the signatures on this stack (trivial for witness VMs). -/
+theorem C03M_step_eq (st : Consensus.State) (pc : Nat) (hpc : pc < cfg.script.length)
+    (hw : hasFlag cfg.flags Gen.VM.VERIFY_MINIMALIF = true → cfg.witness = true)
+    (hwp : hasFlag cfg.flags Gen.VM.VERIFY_WITNESS_PUBKEYTYPE = true → cfg.witness = true) (hchk : ChkWF chk)
+    (hdel : ∀ sigs, (∀ x ∈ sigs, x ∈ st.stack) → DelAgrees cfg st sigs) :
+    match getScriptOp (cfg.script.drop pc) with
+    | none => (evalInstruction (stdEnv chk) cfg (absS st pc)).toOption = none
+    | some (op, data, _, size) =>
+        Agree (pc + size) (evalInstruction (stdEnv chk) cfg (absS st pc)) (specStep chk cfg st op data (pc + size)) :=
+  instr_eq_all chk cfg st pc hpc hw hwp hchk hdel
+
+/-- C03.eval_eq, **every script**: `VM(script, …, initial_stack).eval_script()` and Core's `EvalScript` give the same
+verdict and, on success, the same final stack, for all scripts, initial stacks, flag sets, transaction contexts and
+both signature versions (CHECKSIG family included). -/
+theorem C03M_eval_eq (hw : hasFlag cfg.flags Gen.VM.VERIFY_MINIMALIF = true → cfg.witness = true)
+    (hwp : hasFlag cfg.flags Gen.VM.VERIFY_WITNESS_PUBKEYTYPE = true → cfg.witness = true) (hchk : ChkWF chk)
+    (stack : List Bytes) (hdel : SigDelShared chk cfg stack) :
+    (evalScript (stdEnv chk) cfg stack).toOption.map (·.stack) =
+      (Consensus.evalScript (specChk chk) stack cfg.script (Flags.ofBits cfg.flags)
+        ⟨cfg.ctx.version, cfg.ctx.lockTime, cfg.ctx.sequence⟩ (if cfg.witness then .witnessV0 else .base)).toOption :=
+  evalScript_eq_all chk cfg hw hwp hchk stack hdel
+
+/-- C03.eval_eq for witness (BIP143) VMs: no hypothesis beyond `ChkWF` — every witness script, every initial stack,
+every flag set -/
+theorem C03M_eval_eq_witness (hchk : ChkWF chk) (hwit : cfg.witness = true) (stack : List Bytes) :
+    (evalScript (stdEnv chk) cfg stack).toOption.map (·.stack) =
+      (Consensus.evalScript (specChk chk) stack cfg.script (Flags.ofBits cfg.flags)
+        ⟨cfg.ctx.version, cfg.ctx.lockTime, cfg.ctx.sequence⟩ .witnessV0).toOption := by
+  have := evalScript_eq_all chk cfg (fun _ => hwit) (fun _ => hwit) hchk stack (sigDelShared_witness chk cfg hwit stack)
+  rw [hwit] at this
+  exact this
+
+end
+
+-- `ChkWF` is satisfiable by checkers that accept something, and the conclusions are about non-trivial runs:
+-- 1-of-2 CHECKMULTISIG whose signature matches the second (deeper) key, then the same under NULLFAIL with a wrong signature
+def demoSig : Bytes := [0x30, 0x06, 0x02, 0x01, 0x01, 0x02, 0x01, 0x01, 0x01]
+def demoKey (b : UInt8) : Bytes := 0x02 :: List.replicate 32 b
+def demoChk : Bytes → Bytes → Bytes → Bool → Bool := fun sig pk _ _ => sig == demoSig && pk == demoKey 7
+example : ChkWF demoChk := by
+  intro sig pk code w h
+  simp only [demoChk, Bool.and_eq_true, beq_iff_eq] at h
+  obtain ⟨rfl, rfl⟩ := h
+  exact ⟨by decide, by decide, by decide⟩
+#guard ((evalScript (stdEnv demoChk) ⟨[0xae], ⟨0, 0, 1⟩, 0, true⟩ [[2], demoKey 9, demoKey 7, [1], demoSig, []]).toOption.map
+  (·.stack)) = some [[1]]
+#guard (Consensus.evalScript (specChk demoChk) [[2], demoKey 9, demoKey 7, [1], demoSig, []] [0xae] (Flags.ofBits 0) ⟨1, 0, 0⟩
+  .witnessV0).toOption = some [[1]]
+#guard ((evalScript (stdEnv demoChk) ⟨[0xae], ⟨0, 0, 1⟩, 16384, true⟩ [[2], demoKey 9, demoKey 8, [1], demoSig, []]).toOption.map
+  (·.stack)) = none
+#guard (Consensus.evalScript (specChk demoChk) [[2], demoKey 9, demoKey 8, [1], demoSig, []] [0xae] (Flags.ofBits 16384) ⟨1, 0, 0⟩
+  .witnessV0).toOption = none
+
+/-- why `ChkWF` is asked: a checker that "verifies" an empty signature separates the two sides (pycoin never asks it) -/
+theorem C03M_chk_wf_needed :
+    (evalScript (stdEnv fun _ _ _ _ => true) ⟨[0xac], ⟨0, 0, 1⟩, 0, true⟩ [demoKey 7, []]).toOption.map (·.stack) ≠
+      (Consensus.evalScript (specChk fun _ _ _ _ => true) [demoKey 7, []] [0xac] (Flags.ofBits 0) ⟨1, 0, 0⟩ .witnessV0).toOption := by
+  decide
 
 end Pycoin.VM
